@@ -53,14 +53,31 @@ theorem ghost_only_from_agent_edit (sp : Spec) (op : Op) (y s : Nat)
   | stage ys => exact Or.inl h
   | commit => exact Or.inl h
 
+/-- **restores are inside the theorem.** Putting a file back to its HEAD content (`git restore`,
+    `git checkout -- <file>`, an editor's undo, `reset --hard` as far as this file goes), or to any
+    mix of current lines, HEAD lines and new lines, is a valid human edit: `no_invention` and the
+    invariants cover histories with such destructive steps. -/
+theorem restore_is_valid_edit (sp : Spec) (hnd : sp.st.head.Nodup) : ValidEditH sp sp.st.head :=
+  ⟨hnd, fun _ hy _ => Or.inr hy⟩
+
+/-- an agent rewrites a line, the person restores the file, commits: valid, and nothing is credited -/
+example : ValidOps2 (cleanSpec [1, 2, 3] (fun _ => none))
+    [.aiEdit 7 [1, 10, 3], .humanEdit [1, 2, 3], .stageAll, .commit] ∧
+    (run { head := [1, 2, 3], index := [1, 2, 3], work := [1, 2, 3] }
+      [.aiEdit 7 [1, 10, 3], .humanEdit [1, 2, 3], .stageAll, .commit]).notes.head? = some [] := by
+  refine ⟨?_, by decide⟩
+  simp [ValidOps2, ValidOp2, ValidEdit, ValidEditH, CommitOK, Settled, cleanSpec, specStep, step, checkpoint, previous,
+    checkpointAttr, lookup]
+
 /-- non-vacuity of `ValidOps2` with partial commits and two sessions -/
 example : ValidOps2 (cleanSpec [1, 2, 3] (fun _ => none))
     [.aiEdit 7 [1, 2, 10, 3], .stage [1, 2, 3], .commit, .aiEdit 8 [1, 2, 10, 11, 3], .humanEdit [1, 12, 2, 10, 11, 3],
      .stageAll, .commit] := by
-  simp [ValidOps2, ValidOp2, ValidEdit, CommitOK, Settled, cleanSpec, specStep, step, checkpoint, previous, commitStep,
+  simp [ValidOps2, ValidOp2, ValidEdit, ValidEditH, CommitOK, Settled, cleanSpec, specStep, step, checkpoint, previous, commitStep,
     credit, enum1, enumFrom, initialAuthor, checkpointAttr, lookup, effective]
 
 end GitAi.Sys
 
 #print axioms GitAi.Sys.no_invention
 #print axioms GitAi.Sys.ghost_only_from_agent_edit
+#print axioms GitAi.Sys.restore_is_valid_edit
